@@ -403,6 +403,52 @@ fn part_a_vdaf_ctors(ctx: &mut Ctx) {
 }
 
 // ---------------------------------------------------------------------------------------------
+// Part A3: add_noise_to_agg_share on instances at the extremes of the constructor domain
+// ---------------------------------------------------------------------------------------------
+
+/// `AggregatorWithNoise::add_noise_to_agg_share` returns a Result: on every instance the constructors
+/// accept (incl. bounds that need as many bits as the field has, length 1, huge budgets, tiny budgets) it
+/// must return Ok or Err, never panic / overflow.
+fn part_a_noise(ctx: &mut Ctx) {
+    use prio::vdaf::prio3::{Prio3Histogram, Prio3L1BoundSum, Prio3SumVec};
+    use prio::vdaf::{AggregateShare, AggregatorWithNoise};
+    use prio::field::Field128;
+    if ctx.shard != 3 % ctx.nshards {
+        return;
+    }
+    let p = P128;
+    let eps_list: Vec<(u128, u128)> = vec![(1, 1), (1, 1_000_000), (1_000_000, 1), (u64::MAX as u128, 1), (1, u64::MAX as u128), (u128::MAX, 1), (1, u128::MAX)];
+    let bounds: Vec<u128> = vec![1, 2, 3, 255, 256, (1 << 63) - 1, 1 << 63, u64::MAX as u128, 1 << 64, (1 << 126) + 5, (1 << 127) - 1, 1 << 127, (1 << 127) + 1, p - 2, p - 1];
+    for &eps in &eps_list {
+        let Ok(r) = Rational::from_unsigned(eps.0, eps.1) else { continue };
+        let Ok(b) = PureDpBudget::new(r) else { continue };
+        let strat = PureDpDiscreteLaplace::from_budget(b);
+        for &max in &bounds {
+            for len in [1usize, 2, 5] {
+                let wit = json!({"max": max.to_string(), "len": len, "epsilon": format!("{}/{}", eps.0, eps.1)});
+                if let Ok(Ok(v)) = catch(|| Prio3SumVec::new_sum_vec(2, max, len, 1.max(len / 2))) {
+                    let mut share = AggregateShare::<Field128>::from(vec![Field128::from(7u128); len]);
+                    let _ = misuse(ctx, "Prio3SumVec::add_noise_to_agg_share", "instance-at-domain-extreme", wit.clone(), catch(|| v.add_noise_to_agg_share(&strat, &(), &mut share, 3).map_err(|e| prio::vdaf::VdafError::Uncategorized(e.to_string()))));
+                    ctx.count("noise_calls_at_domain_extremes");
+                }
+                if let Ok(Ok(v)) = catch(|| Prio3L1BoundSum::new_l1_bound_sum(2, max, len, 1.max(len / 2))) {
+                    let mut share = AggregateShare::<Field128>::from(vec![Field128::from(7u128); len]);
+                    let _ = misuse(ctx, "Prio3L1BoundSum::add_noise_to_agg_share", "instance-at-domain-extreme", wit.clone(), catch(|| v.add_noise_to_agg_share(&strat, &(), &mut share, 3).map_err(|e| prio::vdaf::VdafError::Uncategorized(e.to_string()))));
+                    ctx.count("noise_calls_at_domain_extremes");
+                }
+            }
+        }
+        for len in [1usize, 2, 17] {
+            if let Ok(Ok(v)) = catch(|| Prio3Histogram::new_histogram(2, len, 1.max(len / 2))) {
+                let mut share = AggregateShare::<Field128>::from(vec![Field128::from(7u128); len]);
+                let _ = misuse(ctx, "Prio3Histogram::add_noise_to_agg_share", "instance-at-domain-extreme", json!({"len": len, "epsilon": format!("{}/{}", eps.0, eps.1)}), catch(|| v.add_noise_to_agg_share(&strat, &(), &mut share, 3).map_err(|e| prio::vdaf::VdafError::Uncategorized(e.to_string()))));
+                ctx.count("noise_calls_at_domain_extremes");
+            }
+        }
+    }
+}
+
+// ---------------------------------------------------------------------------------------------
 // Part B: measurements outside the configured range
 // ---------------------------------------------------------------------------------------------
 
@@ -1002,6 +1048,7 @@ fn part_c_poplar_prio2(ctx: &mut Ctx) {
 pub fn run(ctx: &mut Ctx) {
     part_a_types(ctx);
     part_a_vdaf_ctors(ctx);
+    part_a_noise(ctx);
     part_b(ctx);
     part_c_prio3(ctx);
     part_c_poplar_prio2(ctx);
